@@ -328,7 +328,8 @@ def _summarise(case):
     trs = []
     for k, t in enumerate(case["tracks"]):
         tr = gen.make_track([(p[0], p[1], 0.0) for p in t])
-        tr.uid = k + 1
+        # user identifiers are numbers or text (the documented pseudo-feature 'uid' is counted per cell)
+        tr.uid = (k + 1) if len(case["tracks"]) % 2 else "user-%d" % (k + 1)
         tr.createAnalyticalFeature("v", [float("nan") if p[2] is None else p[2] for p in t])
         tr.createAnalyticalFeature("w", [float("nan") if p[2] is None else p[2] for p in t])
         trs.append(tr)
@@ -503,6 +504,14 @@ def run_case(case, ctx):
         def again():
             raster.addAFMap("w#co_count")
             raster.addAFMap("w#co_sum")
+            if nobs % 2 == 0 and len(trs) >= 1:
+                # error path in between: a collection whose LAST track lacks a declared feature is refused (what is
+                # raised is not judged); the valid hand-over follows on the same raster
+                from tracklib.core.track_collection import TrackCollection
+                lacking = gen.make_track([(p[0], p[1], 0.0) for p in tracks[0]])
+                lacking.createAnalyticalFeature("v", [1.0] * lacking.size())
+                M.call(raster.addCollectionToRaster, TrackCollection(list(trs) + [lacking]))
+                M.CTX.count("refused_collection_before_valid_one")
             raster.addCollectionToRaster(col)
             raster.computeAggregates()
         r2 = M.call(again)
